@@ -159,7 +159,8 @@ def _batch(run, prog, cls, method, original):
         rem = [ev for ev, _ in body if isinstance(ev, ir.Mut) and ev.recv == fs and ev.method in ("remove", "discard")
                and tuple(ev.args) == (elem,)]
         before = bool(rem) and index[id(rem[0])] < index[id(iev)]
-        run.check(full and before and preds == iev.res and xi == xo and ns == N, "TELESCOPE", f"{method}.coalition",
+        fresh = fs is not None and O.lid in (ir.site_loops(fs) or ())
+        run.check(full and before and fresh and preds == iev.res and xi == xo and ns == N, "TELESCOPE", f"{method}.coalition",
                   W(iev.line), fq, "coalition handling",
                   "the imputed set must start as all feature names for every observation, lose the revealed feature "
                   "before the imputation, and the imputer must get the observation's x_i and n; "
@@ -194,6 +195,9 @@ def _batch(run, prog, cls, method, original):
                       f"inner evaluations over {ir.show_nl(rng) if rng else None}",
                       f"exactly n model evaluations must be averaged per chain step; they range over "
                       f"{ir.show_nl(rng) if rng else 'nothing'}", "n evaluations per step")
+        if ok and O.lid not in (ir.site_loops(xs.cont) or ()):
+            ok, why = False, "the revealed-values dict is created once outside the observation loop: values revealed for one " \
+                             "observation leak into the next one"
         run.check(ok, "TELESCOPE", f"{method}.coalition", W(L.line), fq, f"revealed-values handling: {why if not ok else 'ok'}",
                   "original mode must add x_i[feature] to the revealed values before the evaluations and evaluate the model "
                   f"on a background row of x_data overlaid by the revealed values, collecting every prediction: {why}",
